@@ -429,9 +429,13 @@ class ActionTypeHint(Action):
                     prev_sub_cfg = prev_val.get("init_args")
                     if prev_sub_cfg:
                         sub_add_kwargs = getattr(action, "sub_add_kwargs", {})
-                        subparser = ActionTypeHint.get_class_parser(val["class_path"], sub_add_kwargs)
-                        sub_cfg = val.get("init_args", Namespace())
-                        ActionTypeHint.discard_init_args_on_class_path_change(subparser, prev_sub_cfg, sub_cfg)
+                        try:
+                            subparser = ActionTypeHint.get_class_parser(val["class_path"], sub_add_kwargs)
+                        except Exception:
+                            subparser = None  # as in discard_init_args_on_class_path_change: not a resolvable class
+                        if subparser is not None:
+                            sub_cfg = val.get("init_args", Namespace())
+                            ActionTypeHint.discard_init_args_on_class_path_change(subparser, prev_sub_cfg, sub_cfg)
                     keys = keys[: num + 1] + [k for k in keys[num + 1 :] if not k.startswith(key + ".")]
             num += 1
 
@@ -1355,7 +1359,10 @@ def discard_init_args_on_class_path_change(parser_or_action, prev_val, value):
         parser = parser_or_action
         if isinstance(parser_or_action, ActionTypeHint):
             sub_add_kwargs = getattr(parser_or_action, "sub_add_kwargs", {})
-            parser = ActionTypeHint.get_class_parser(value["class_path"], sub_add_kwargs)
+            try:
+                parser = ActionTypeHint.get_class_parser(value["class_path"], sub_add_kwargs)
+            except Exception:
+                return  # not a class that can be resolved, e.g. an Any typed value that only looks like a class spec
         del_args = {}
         prev_val = subclass_spec_as_namespace(prev_val)
         for key, val in list(prev_val.init_args.__dict__.items()):
